@@ -7,3 +7,8 @@ Theorem C07_Minesweeper_Source_step_consistent rows cols nm re rm ri s a :
   Phys rows cols nm (conv (fst (step nm (DefaultRewardFn_call re rm ri) DefaultDoneFn_call s a))).
 Proof. exact (src_step_consistent rows cols nm re rm ri s a). Qed.
 Print Assumptions C07_Minesweeper_Source_step_consistent.
+(* every state reached by the translated step under ANY in-spec action sequence (legal or not, also past LAST) is physically consistent *)
+Theorem C07_Minesweeper_Source_any_actions rows cols nm re rm ri s acts : 0 < rows ->
+  Phys rows cols nm (conv s) -> Forall (in_spec_p rows cols) acts -> Phys rows cols nm (conv (play_src nm re rm ri s acts)).
+Proof. exact (fun H => src_any_actions rows cols nm re rm ri H s acts). Qed.
+Print Assumptions C07_Minesweeper_Source_any_actions.
